@@ -15,6 +15,13 @@ def O(id, props, harness, entry, sentence, functions, **kw):
     return d
 
 
+# every source of libechse.la (src/Makefile am_libechse_la_OBJECTS) for native replays that need the whole library
+LIBECHSE = ["instant.c", "range.c", "dt-strpf.c", "module.c", "hash.c", "intern.c", "state.c", "task.c",
+            "strlst.c", "bufpool.c", "event.c", "evstrm.c", "evical.c", "evrrul.c", "evmrul.c", "evfilt.c",
+            "tzob.c", "scale.c", "shift.c", "tzraw.c", "bitint.c", "echse-genuid.c"]
+ECHSD_NATIVE = dict(native_srcs=LIBECHSE + ["logger.c"], native_libs=["-lev", "-lltdl", "-lm"])
+
+
 def P(id, **kw):
     PROPERTIES[id] = kw
 
@@ -67,3 +74,25 @@ O("C08.add.tod", "C08", "h_C08.c", "h_C08_add_tod",
   "echs_instant_add: the time of day of the result is the base's plus the sub-day part of the duration, digit by digit in carry form, carrying at most one day",
   ["echs_instant_add"], dfcc=True, loop_contracts=True, replace=["__get_mdays"],
   solver=["minisat", "kissat", "z3"], timeout={"quick": 600, "thorough": 1800})
+
+O("C08.epoch.to", ["C08", "C07"], "h_C08_epoch.c", "h_C08_to_epoch",
+  "echs_instant_to_epoch(i) == days since 1970-01-01 * 86400 + second of day, for every valid timed instant 1901..2099 (every month, before and after 1970 and 2038)",
+  ["echs_instant_to_epoch", "__inst_to_epoch"], solver=["minisat", "kissat", "z3"],
+  native_srcs=["tzraw.c", "hash.c", "instant.c"])
+
+O("C08.epoch.from", ["C08"], "h_C08_epoch.c", "h_C08_from_epoch",
+  "epoch_to_echs_instant(t): for every second of 1901..2099 the result is the valid whole-second instant whose date is the floor day count since 1970-01-01 and whose time of day is the remainder (pair form)",
+  ["epoch_to_echs_instant", "__epoch_to_inst"], solver=["minisat", "kissat", "z3"], unwind=3,
+  native_srcs=["tzraw.c", "hash.c", "instant.c"],
+  assumptions=["C division identity t == (t/86400)*86400 + t%86400 connects the pair form (ghost d, s) to the time_t value; not machine-checked (wide division, R1)"])
+O("C08.epoch.roundtrip.stratum", ["C08"], "h_C08_epoch.c", "h_C08_epoch_roundtrip_stratum",
+  "instant -> unix time -> instant is the identity (end to end, no trusted identity) on a stratum of years",
+  ["echs_instant_to_epoch", "epoch_to_echs_instant"], kind="bounded",
+  bound={"quick": "years 1969..1971 (every second)", "thorough": "years 1960..1980 (every second)"},
+  defines={"quick": ["-DSTRATUM_YLO=1969U", "-DSTRATUM_YHI=1971U"], "thorough": ["-DSTRATUM_YLO=1960U", "-DSTRATUM_YHI=1980U"]},
+  solver=["minisat", "kissat", "z3"], unwind=3, timeout={"quick": 300, "thorough": 1800},
+  native_srcs=["tzraw.c", "hash.c", "instant.c"])
+
+O("C08.tstamp", ["C08", "C04"], "h_C08_tstamp.c", "h_C08_tstamp",
+  "instant_to_tstamp(i) (the value the daemon arms its timer with) is exactly the unix time of the instant, for every valid instant 1901..2099",
+  ["instant_to_tstamp"], defines=["-DTS_YLO=1901U"], solver=["minisat", "kissat", "z3"], timeout={"quick": 900, "thorough": 1800}, **ECHSD_NATIVE)
